@@ -198,7 +198,8 @@ R.contract("Message.from_bytes", params={"msg_data": "bytes", "plain_msg": "bool
                              "result.header.command_code == class_code(result))"),
                     ("app", "result.header.application_id == u32(msg_data[8:12])"),
                     ("hbh", "result.header.hop_by_hop_identifier == u32(msg_data[12:16])"),
-                    ("e2e", "result.header.end_to_end_identifier == u32(msg_data[16:20])")],
+                    ("e2e", "result.header.end_to_end_identifier == u32(msg_data[16:20])"),
+                    ("header-present", "len(msg_data) >= 20")],
            raises=[Raise("ConversionError", "True", "may"), Raise("AvpDecodeError", "True", "may")],
            allocates=True, props=["C02", "C04"])
 R.loop("Message.from_bytes", 0,
